@@ -192,6 +192,14 @@ func genChain(e *Env, nLevels, nBlocks int, pickChoice func() int) *chainCase {
 			}
 			lv.outside = append(lv.outside, pick(rg, []string{"", " stray ", "{{ who }}"}))
 		}
+		// a child may also override a wrapper block of the base, reaching the nested block through parent()
+		for _, it := range cc.layout {
+			if it.kind == "block" && strings.HasPrefix(it.name, "wrap") && rg.Intn(2) == 0 {
+				lv.defs[it.name] = []bItem{{kind: "text", text: fmt.Sprintf("W%d<", i)}, {kind: "parent"}, {kind: "text", text: ">"}}
+				lv.order = append(lv.order, it.name)
+				lv.outside = append(lv.outside, "")
+			}
+		}
 	}
 	return cc
 }
@@ -248,6 +256,36 @@ func runC10(e *Env) error {
 		if im.Class != "" || im.Out != c.want {
 			r.Violate(Violation{Key: "c10-corpus", What: fmt.Sprintf("corpus chain %d renders %q (%s), expected %q", i, im.Out, im.Class, c.want),
 				Broken: "C10 regression corpus", Replay: map[string]any{"kind": "chain", "templates": c.tpls, "want": c.want, "got": im.Out, "class": im.Class, "msg": im.Msg}})
+		}
+	}
+	// a parent chosen by the context: one engine, several renders with different contexts, each compared with a fresh engine
+	{
+		tpls := map[string]string{
+			"main": "{% extends flag ? 'LA' : 'LB' %}{% block c %}child[{{ parent() }}]{% endblock %}",
+			"dyn2": "{% extends names[idx] %}{% block c %}d2{% endblock %}",
+			"LA":   "A({% block c %}a{% endblock %})", "LB": "B({% block c %}b{% endblock %})",
+		}
+		eng, err := newEngine(tpls)
+		if err == nil {
+			for round, cx := range []map[string]any{{"flag": true}, {"flag": false}, {"flag": true}, {"flag": 0}, {"flag": "x"}} {
+				got := guarded(func() (string, error) { return eng.Render("main", cx) })
+				want := renderFresh(tpls, "main", cx)
+				r.Seen(fmt.Sprintf("dyn:%d", round), true)
+				if got.Class != want.Class || got.Out != want.Out {
+					r.Violate(Violation{Key: "dynamic-parent-sticks", What: fmt.Sprintf("render %d with %v on a reused engine gives %q, a fresh engine gives %q: the parent of a computed extends must be chosen per render", round, cx, got.Out, want.Out),
+						Broken: "theorem C10_registerBlocks_spec (parent names read from the context; implementation-only oracle)", Replay: map[string]any{"kind": "chain-rerender", "templates": tpls, "ctx": fmt.Sprint(cx), "got": got.Out, "want": want.Out}})
+				}
+			}
+			for round, idx := range []int{0, 1, 0} {
+				cx := map[string]any{"names": []interface{}{"LA", "LB"}, "idx": idx}
+				got := guarded(func() (string, error) { return eng.Render("dyn2", cx) })
+				want := renderFresh(tpls, "dyn2", cx)
+				r.Seen(fmt.Sprintf("dyn2:%d", round), true)
+				if got.Class != want.Class || got.Out != want.Out {
+					r.Violate(Violation{Key: "dynamic-parent-sticks", What: fmt.Sprintf("extends names[idx] with idx=%d on a reused engine gives %q, fresh engine %q", idx, got.Out, want.Out),
+						Broken: "theorem C10_registerBlocks_spec (implementation-only oracle)", Replay: map[string]any{"kind": "chain-rerender", "templates": tpls, "ctx": fmt.Sprint(cx), "got": got.Out, "want": want.Out}})
+				}
+			}
 		}
 	}
 	// exhaustive small scope: ≤ 3 levels × ≤ 2 blocks, every assignment
